@@ -5,4 +5,4 @@
 set -e
 cd "$(dirname "$0")"
 ./check build
-./check selftest --seeds 40
+./check selftest --seeds 24
